@@ -207,7 +207,9 @@ def one_injected(ctx, report, profile):
     p = list(profile)
     report.quality_profile = lambda: p
     try:
-        report.quality_profile_percentage()
+        r = report.quality_profile_percentage()
+        if len(ctx.samples) < 3 and p[2] and p[3] and sum(p) > 20:
+            ctx.sample({"profile": p, "percentages(easy,verbose,hard,unmaintainable)": list(r)})
     except MonitorViolation:
         ctx.violation("percentage_contract", {"profile": p, "mode": "injected"}, {"profile": p, "problems": contract_problems()})
     except Exception as e:
@@ -287,7 +289,6 @@ def run(shard, ctx):
                 continue
             check_rendered(ctx, rep, p, case)
             ctx.distinct(list(p))
-        ctx.sample({"profile": [0, 0, 99, 101], "true_percent": [0, 0, 49.5, 50.5], "must_show": "integers in 0..100 summing to 100"})
 
 
 def replay(case, ctx):
